@@ -270,7 +270,10 @@ def P(pid, instances, **kw):
 
 
 P("C01", lambda t: g_k2()[1:3] + g_k3() + g_p1() + [I("p2_layout"), I("p3_lazy", cfg="u", defs=["P3_LEN=48"], flags=UW(51), cap=120, rss=0.5)] + g_p3(t) + g_p4(t) + g_p5() + g_p6()
-  + g_t1(t) + g_t2(t) + g_t3_lemma(t) + g_t4())
+  + g_t1(t) + g_t2(t) + g_t3_lemma(t) + g_t4()
+  # "encrypted or not": the encoder/decoder harnesses start from Inv-seeds, so the round trip of an
+  # encrypted seed needs polyseed_crypt to preserve Inv (seeded change C01-R6B: CLEAR_MASK before the XOR)
+  + [I("k8_crypt")])
 P("C02", lambda t: g_k2() + g_p5() + g_p6() + [I("p7_load")] + g_t3_lemma(t) + g_t4())
 P("C03", lambda t: g_k2()[1:2] + g_k3() + g_p1() + [I("p2_layout")] + g_t4_meta() + g_t4() + g_p5())
 P("C04", lambda t: [I("k7_keygen"), I("k7_inject"), I("k8_crypt"), I("k9_create"), I("k4_birthday"), I("p7_load"), I("k7_keygen", cfg="sb")] + g_p5() + g_k3())
